@@ -102,6 +102,10 @@ def gen_named_fields(g, helpers, attrs_vec, allow_flatten=True, for_variant=Fals
                 fattrs.append(f'rename = "{rn}"'); attrs_vec.append("f:rename:" + ("ident" if rn.isidentifier() and rn.isascii() else "nonident"))
         elif a == 1:
             fattrs.append('alias = "alt_' + nm + '"'); attrs_vec.append("f:alias")
+        elif a == 9:
+            fattrs.append('rename(serialize = "ser_' + nm + '")'); attrs_vec.append("f:rename_serialize_only")
+        elif a == 10:
+            fattrs.append('rename(serialize = "both_' + nm + '", deserialize = "both_' + nm + '")'); attrs_vec.append("f:rename_both")
         elif a == 2:
             fattrs.append("default"); attrs_vec.append("f:default")
         elif a == 3 and not for_variant:
@@ -194,6 +198,18 @@ WITNESSES = [
     ("X5:unit-only enum, internally tagged", ["w:X5", "tagging:internal"], "enum_mixed",
      '#[serde(tag = "type")]\npub enum T { A, B }\n',
      ['T::A', 'T::B']),
+    ("X6:two serde attributes on one variant", ["w:X6", "v:rename", "v:rename_all:camelCase"], "enum_mixed",
+     'pub enum T { #[serde(rename = "renamed")] #[serde(rename_all = "camelCase")] A { user_name: u8 }, B(u8) }\n',
+     ['T::A { user_name: 1 }', 'T::B(2)']),
+    ("X7:rename(serialize = .., deserialize = ..)", ["w:X7", "f:rename_both"], "struct",
+     'pub struct T { #[serde(rename(serialize = "n", deserialize = "n"))] pub name: String }\n',
+     ['T { name: "x".to_string() }']),
+    ("X8:five data-carrying variants / five-element tuple", ["w:X8", "tagging:external"], "enum_mixed",
+     'pub enum T { A(u8), B(u8), C(u8), D(u8), E5(u8, String, bool, u8, u8) }\n',
+     ['T::A(1)', 'T::D(4)', 'T::E5(1, "x".to_string(), true, 2, 3)']),
+    ("X9:transparent struct", ["w:X9", "transparent:u32"], "transparent",
+     '#[serde(transparent)]\npub struct T { pub inner: u32 }\n',
+     ['T { inner: 7 }']),
     ("F1:Option::None is written as null", ["w:F1", "t:option"], "struct",
      'pub struct T { pub a: Option<u8> }\n',
      ['T { a: Some(1) }', 'T { a: None }']),
@@ -227,7 +243,7 @@ pub fn run() {{
 def gen_type(g, idx):
     attrs = []
     helpers = {"N": gen_helper_struct(g, "N"), "E": gen_helper_enum(g, "E")}
-    shape = g.pick(["struct", "struct", "struct", "newtype", "tuple", "unit", "enum_unit", "enum_unit", "enum_mixed", "enum_mixed"])
+    shape = g.pick(["struct", "struct", "struct", "newtype", "tuple", "unit", "enum_unit", "enum_unit", "enum_mixed", "enum_mixed", "enum_mixed", "transparent"])
     cattrs = []
     derive_default = False
     src = ""
@@ -243,6 +259,16 @@ def gen_type(g, idx):
         lines, value, fields = gen_named_fields(g, helpers, attrs, allow_flatten="deny_unknown_fields" not in cattrs)
         src = "pub struct T {\n" + "\n".join(lines) + "\n}\n"
         inst = lambda g, full: "T " + value(g, full)
+    elif shape == "transparent":
+        ty = g.pick(["u32", "String", "N", "Vec<u32>", "bool", "E"])
+        attrs.append("transparent:" + ty.split("<")[0])
+        cattrs.append("transparent")
+        if g.chance(1, 2):
+            src = f"pub struct T {{ pub inner: {ty} }}\n"
+            inst = lambda g, full: f"T {{ inner: {value_expr(g, ty, helpers, full)} }}"
+        else:
+            src = f"pub struct T(pub {ty});\n"
+            inst = lambda g, full: f"T({value_expr(g, ty, helpers, full)})"
     elif shape == "newtype":
         ty = g.pick(["u32", "String", "N", "Vec<u32>", "Option<String>", "bool"])
         attrs.append("newtype:" + ty.split("<")[0])
@@ -277,7 +303,7 @@ def gen_type(g, idx):
     else:
         tagging = g.pick(["external", "external", "internal", "adjacent", "untagged"])
         attrs.append("tagging:" + tagging)
-        if tagging == "internal": cattrs.append('tag = "type"')
+        if tagging == "internal": cattrs.append('tag = "kind"')
         if tagging == "adjacent": cattrs += ['tag = "t"', 'content = "c"']
         if tagging == "untagged": cattrs.append("untagged")
         if g.chance(1, 2):
@@ -293,6 +319,11 @@ def gen_type(g, idx):
             pre = ""
             if g.chance(1, 6):
                 rn = g.pick(["renamedVariant", "renamed-variant", "RV"]); pre = f'#[serde(rename = "{rn}{v}")] '; attrs.append("v:rename")
+            if k == "struct" and g.chance(1, 4):
+                c = g.pick(CASES); pre += f'#[serde(rename_all = "{c}")] '; attrs.append("v:rename_all:" + c)
+            if len(makers) >= 1 and g.chance(1, 12):
+                # a variant serde never writes or reads
+                vlines.append(f"    #[serde(skip)] {pre}{v}Skipped(u8),"); attrs.append("v:skip")
             if k == "unit":
                 vlines.append(f"    {pre}{v},"); makers.append(lambda g, full, v=v: f"T::{v}"); attrs.append("v:unit-in-mixed")
             elif k == "newtype":
